@@ -24,6 +24,8 @@ def cfg_value(v):
         return str(v)
     if isinstance(v, str):
         return tla_string(v)
+    if isinstance(v, (tuple, list, set, frozenset)):
+        return "{" + ", ".join(cfg_value(x) for x in sorted(v)) + "}"
     raise TypeError(v)
 
 
